@@ -31,6 +31,8 @@ DECIDED_R7 = ('Round 7: _cast announces no length but len() of the bytes it retu
 DECIDED = DECIDED + ' ' + DECIDED_R7
 DECIDED_R8 = ("Round 8: hooks are registered through add_hook only; the except-Exception handler of _cast's iterator peek never re-raises.")
 DECIDED = DECIDED + ' ' + DECIDED_R8
+DECIDED_R9 = ('Round 9: `emit` exhausts the snapshot whatever the hooks return (b); premises C14.b / C14.c for "no stored header value contains a line break" (a).')
+DECIDED = DECIDED + ' ' + DECIDED_R9
 NOT_DECIDED = ('header-list well-formedness beyond C14; close-exactly-once at run time for arbitrary servers; custom error '
                'handlers; behaviour after the first body chunk; the open set of handler programs.')
 ASSUMPTIONS = ['the server calls close() on the returned iterable once (PEP 3333)', 'start_response itself may raise: then the handler\'s call carries exc_info']
